@@ -955,3 +955,40 @@ def real_time_script(rng, n_late=120, n_early=3000, first_id=930):
         else:
             out.append({"op": "reset", "id": b})
     return out
+
+
+def reset_after_histories(rng, kind, to, base_id=720, depth=4):
+    """C17: reset() after EVERY short history over the contributing controllers of one channel (all
+    orders of value MSB / LSB / increment / re-selection after a number selection; all orders of two MSB /
+    LSB pairs for the 14-bit CC scanner), then `== new`, then a complete construct fed to the reset scanner
+    and to a new one.  Hidden state that survives reset() is set by SOME order of these."""
+    import itertools
+    out = []
+    a, b = base_id, base_id + 1
+    ch = rng.randrange(16)
+    if kind == "cc14":
+        n1, n2 = 7, rng.choice([0, 1, 31])
+        alpha = [[176 + ch, n1, 100], [176 + ch, n1 + 32, 3], [176 + ch, n2, 50], [176 + ch, n2 + 32, 4], [192 + ch, 5, 0]]
+        pre0 = []
+        post = [[176 + ch, n1, 9], [176 + ch, n1 + 32, 8], [176 + ch, n2 + 32, 7], [176 + ch, n2, 6], [176 + ch, n2 + 32, 5]]
+    else:
+        pre0 = [[176 + ch, 99, 3], [176 + ch, 98, 37]]
+        alpha = [[176 + ch, 6, 117], [176 + ch, 38, 24], [176 + ch, 96, 1], [176 + ch, 98, 38], [176 + ch, 101, 3]]
+        post = [[176 + ch, 99, 3], [176 + ch, 98, 37], [176 + ch, 6, 100], [176 + ch, 38, 24], [176 + ch, 97, 1],
+                [176 + ch, 101, 3], [176 + ch, 100, 36], [176 + ch, 38, 7], [176 + ch, 6, 8]]
+    for n in range(1, depth + 1):
+        for seq in itertools.product(alpha, repeat=n):
+            out.append({"op": "new", "id": a, "k": kind, "to": to})
+            for m in pre0 + list(seq):
+                out.append({"op": "feed", "id": a, "m": m})
+            out.append({"op": "reset", "id": a})
+            out.append({"op": "new", "id": b, "k": kind, "to": to})
+            out.append({"op": "eq", "id": a, "b": b, "xe": True, "xp": "C17"})
+            for m in post:
+                out.append({"op": "feed", "id": a, "m": m})
+                out.append({"op": "feed", "id": b, "m": m, "tw": 1, "twp": "C17"})
+            if kind == "poll":
+                out.append({"op": "tick", "id": -1, "dt": max(to, 0) + 1})
+                out.append({"op": "poll", "id": a, "ch": ch})
+                out.append({"op": "poll", "id": b, "ch": ch, "tw": 1, "twp": "C17"})
+    return out
